@@ -5,7 +5,9 @@
    root as public key, after the signature extensions ran once. Hashes and curve operations are oracles. *)
 From Coq Require Import ZArith List Bool.
 From Coq.Strings Require Import Byte.
-From TS Require Import Bytes State Prog Ops Interp NopSpec StackLemmas ConfigSpec TaprootSpec.
+From Coq.Strings Require Import String.
+From TS Require Import Bytes State Prog Ops Interp NopSpec StackLemmas ConfigSpec TaprootSpec TapeLemmas AuthSpec
+  Builders BuilderSpec TaprootNonNative.
 Import ListNotations.
 Local Open Scope nat_scope.
 
@@ -36,5 +38,67 @@ Theorem C05_key_path_exact :
            (sigext_log cfg (with_stack st (root :: item :: rest))).
 Proof. exact taproot_key_path. Qed.
 
+(* ---------------- native lock vs make_nonnative_taproot_lock (proofs/TaprootNonNative.v) ----------------
+   Builders.nonnative_taproot_lock is the byte string of the real builder (BLD correspondence on every run).
+   [vres] is the verdict with the final state dropped (the heaps of the two runs differ by construction). *)
+
+(* key path: for EVERY witness script that ends with one item (a 64/65-byte signature) the two locks give the same
+   verdict, True exactly when the signature is accepted under the root *)
+Theorem C05_nonnative_key_path_same_verdict :
+  forall orc cfg f w vals fr st1 root fl sig,
+  run_script orc cfg (9 + f) w vals = Done tt fr st1 ->
+  st_stack st1 = [sig] -> List.length root = 32 -> (List.length sig = 64 \/ List.length sig = 65) ->
+  (to_count (nth_tape st1 0) <? c_limit cfg)%Z = true ->
+  65 <= c_max_item_size cfg -> 3 <= c_max_items cfg ->
+  vres_of_auth (run_auth_scripts orc cfg (9 + f) [w; nonnative_taproot_lock root fl] vals) =
+    vres_of_auth (run_auth_scripts orc cfg (9 + f) [w; taproot_lock root fl] vals) /\
+  (vres_of_auth (run_auth_scripts orc cfg (9 + f) [w; nonnative_taproot_lock root fl] vals) = VBool true <->
+   sig_accepts orc cfg root sig (b2z fl) (st_cache st1)).
+Proof. exact key_path_pair. Qed.
+
+(* script path: both locks refuse a pair that does not recompute to the root, and otherwise run exactly `script` as a
+   sub-tape from the same stack `rest` ... *)
+Theorem C05_nonnative_script_path_both_exact :
+  forall orc cfg f w vals fr st1 root fl key script rest hs h point agg,
+  run_script orc cfg (20 + f) w vals = Done tt fr st1 ->
+  st_stack st1 = key :: script :: rest ->
+  List.length root = 32 -> List.length key = 32 -> List.length h = 32 ->
+  orc PSha256 [script] = OOk [hs] -> orc PSha256 [key ++ hs] = OOk [h] ->
+  orc PBaseMult [clamp32 h] = OOk [point] ->
+  orc PValidPoint [point] = OOk [[x01]] -> orc PValidPoint [key] = OOk [[x01]] ->
+  orc PPointAdd [point; key] = OOk [agg] ->
+  fits cfg script -> fits cfg hs -> fits cfg (key ++ hs) -> fits cfg point -> fits cfg agg ->
+  List.length rest + 4 <= c_max_items cfg -> 32 <= c_max_item_size cfg ->
+  script <> [] ->
+  flag_get (c_flags cfg) (FKStr (str "disallow_OP_EVAL")) = None ->
+  (to_count (nth_tape st1 0) + 1 <? c_limit cfg)%Z = true ->
+  let tid := List.length (st_tapes st1) in
+  let sN := nn_eval_state cfg (snd (next_start st1 0 (nonnative_taproot_lock root fl))) tid root key script rest point in
+  let sT := native_eval_state (snd (next_start st1 0 (taproot_lock root fl))) tid script rest in
+  vres_of_auth (run_auth_scripts orc cfg (20 + f) [w; nonnative_taproot_lock root fl] vals) =
+    (if bytes_eqb agg root then vres_of_run (run_tape orc cfg (S f) (tid + 3) 0 sN) else VBool false) /\
+  vres_of_auth (run_auth_scripts orc cfg (20 + f) [w; taproot_lock root fl] vals) =
+    (if bytes_eqb agg root then vres_of_run (run_tape orc cfg (S (17 + f)) (tid + 1) 0 sT) else VBool false).
+Proof. exact script_path_pair. Qed.
+
+(* ... but NOT in the same environment: the non-native sub-tape starts one call level deeper and sees the lock's own
+   definition 0.  So the equivalence claimed by the property is false of the model — and of the code (known findings
+   D18, D19, replayed on the implementation by the C05 check): *)
+Example C05_nonnative_equivalence_refuted_definition_0 :
+  let script := [x2a; x00; x06; x01] in      (* call d0 ; pop0 ; true *)
+  vres_of_auth (run_auth_scripts toy_orc (toy_cfg 64) 40 [toy_witness script; nonnative_taproot_lock toy_root x00] []) = VBool true /\
+  vres_of_auth (run_auth_scripts toy_orc (toy_cfg 64) 40 [toy_witness script; taproot_lock toy_root x00] []) = VBool false.
+Proof. exact differ_on_call_d0. Qed.
+
+Example C05_nonnative_equivalence_refuted_call_budget :
+  let script := [x01; x06; x01] in            (* true ; pop0 ; true   under callstack_limit 1 *)
+  vres_of_auth (run_auth_scripts toy_orc (toy_cfg 1) 40 [toy_witness script; nonnative_taproot_lock toy_root x00] []) = VBool false /\
+  vres_of_auth (run_auth_scripts toy_orc (toy_cfg 1) 40 [toy_witness script; taproot_lock toy_root x00] []) = VBool true.
+Proof. exact differ_on_call_budget. Qed.
+
+Print Assumptions C05_nonnative_key_path_same_verdict.
+Print Assumptions C05_nonnative_script_path_both_exact.
+Print Assumptions C05_nonnative_equivalence_refuted_definition_0.
+Print Assumptions C05_nonnative_equivalence_refuted_call_budget.
 Print Assumptions C05_script_path_exact.
 Print Assumptions C05_key_path_exact.
